@@ -31,7 +31,10 @@ VALUES = ["x", " x ", "x  y", "x\n\ty", "\xa0x\xa0", "x\xa0\xa0y", "   ", "\n  "
           # source text with escaped markup characters (values are written into the document verbatim)
           "a &lt; b  &amp; c", "&amp;lt;b&amp;gt;", "&gt;\xa0&quot;\xa0\xa0&apos;",
           "m\u00b2 \ufb01eld\xa0\uff1c \u00b4 \u2460",
-          "Counts where <![CDATA[ n < 5 & n > 1 ]]> per plot", "<![CDATA[a]]><![CDATA[ b]]> c"]
+          "Counts where <![CDATA[ n < 5 & n > 1 ]]> per plot", "<![CDATA[a]]><![CDATA[ b]]> c",
+          # a general entity declared in the document's own internal subset (check_doc prepends the DOCTYPE): its
+          # replacement text is text of the element like any other
+          "  Data  from &org;   network ", "&org;"]
 XSI = "http://www.w3.org/2001/XMLSchema-instance"
 
 
@@ -126,9 +129,11 @@ def protected_ancestor(el):
     return False
 
 
-def text_matches(expected, got):
+def text_matches(expected, got, leaf=False):
     if expected is None or expected.strip(xmlinfo.XMLWS) == "":
-        return got is None or got.strip(xmlinfo.XMLWS) == ""
+        if leaf:
+            return got is None or got == ""         # a childless element's blank text is normalised to nothing
+        return got is None or got.strip(xmlinfo.XMLWS) == ""    # between elements: the output's own indentation
     return got == expected
 
 
@@ -155,12 +160,13 @@ def compare(src, out, path, diffs):
         raw = None if s_txt is None else s_txt.replace("\xa0", " ")
         if holder is not None and protected_ancestor(holder):
             exp = raw
-            if exp is not None and exp != "" and o_txt != exp:
-                bad(which, exp, o_txt)          # protected text is preserved exactly, also when it is only white space
+            if exp is not None and exp != "":
+                if o_txt != exp:
+                    bad(which, exp, o_txt)      # protected text is preserved exactly, also when it is only white space
                 continue
         else:
             exp = None if raw is None else xmlinfo.normalize_space(raw)
-        if not text_matches(exp, o_txt):
+        if not text_matches(exp, o_txt, leaf=(which == "text" and not src.children and not out.children)):
             bad(which, exp, o_txt)
     if len(src.children) != len(out.children):
         bad("children", len(src.children), len(out.children))
@@ -172,6 +178,8 @@ def compare(src, out, path, diffs):
 def check_doc(doc, case):
     probs = []
     xml = c08.serialise(doc)
+    if "&org;" in xml:
+        xml = '<!DOCTYPE %s [<!ENTITY org "Long   Term\xa0 Research">]>' % ((doc["prefix"] + ":" if doc["prefix"] else "") + doc["name"]) + xml
 
     def bad(kind, exp, obs, **sig):
         probs.append(problem(kind, dict(case, xml=xml), expected=exp, observed=obs, **sig))
